@@ -138,14 +138,14 @@ Definition impl_parse_int_head (s : str) : outcome :=
 Definition impl_parse_bigint_head (s : str) : outcome :=
   let s := match strip_0x s with Some t => t | None => s end in
   opt_val VBig (from_str_radix true i128_min i128_max 10 s).
-(* repaired: a 0x prefix selects radix 16 *)
+(* repaired: a 0x prefix selects radix 16; it is a prefix only when no sign follows it (fixes/c14-sign-after-prefix.diff) *)
 Definition impl_parse_int (s : str) : outcome :=
-  match strip_0x s with
+  match prefix_0x s with
   | Some t => opt_val VInt (from_str_radix true i32_min i32_max 16 t)
   | None => opt_val VInt (from_str_radix true i32_min i32_max 10 s)
   end.
 Definition impl_parse_bigint (s : str) : outcome :=
-  match strip_0x s with
+  match prefix_0x s with
   | Some t => opt_val VBig (from_str_radix true i128_min i128_max 16 t)
   | None => opt_val VBig (from_str_radix true i128_min i128_max 10 s)
   end.
@@ -161,11 +161,11 @@ Definition impl_parse_int_radix_head := impl_parse_radix_head VInt i32_min i32_m
 Definition impl_parse_bigint_radix_head := impl_parse_radix_head VBig i128_min i128_max.
 (* repaired (fixes/c17-radix-range.diff: the range of the radix is checked first, bail!;
    fixes/c14-radix-0x-prefix.diff: `Some(hex) if radix == 16 => hex, _ => s`): the prefix announces
-   hexadecimal digits and is dropped for radix 16 only *)
+   hexadecimal digits and is dropped for radix 16 only; fixes/c14-sign-after-prefix.diff: `&& !is_signed(hex)` *)
 Definition impl_parse_radix (mk : Z -> val) (lo hi : Z) (s : str) (radix : Z) : outcome :=
   if radix <? 0 then Err else
   if (radix <? 2) || (36 <? radix) then Err else
-  let s := match strip_0x s with
+  let s := match prefix_0x s with
            | Some hex => if radix =? 16 then hex else s
            | None => s
            end in
@@ -181,7 +181,7 @@ Definition impl_parse_bool (s : str) : outcome :=
 
 (* StrParseByte: "0b" prefix selects radix 2, otherwise 10; u8::from_str_radix *)
 Definition impl_parse_byte (s : str) : outcome :=
-  match strip_0b s with
+  match prefix_0b s with
   | Some t => opt_val VByte (from_str_radix false 0 255 2 t)
   | None => opt_val VByte (from_str_radix false 0 255 10 s)
   end.
